@@ -13,16 +13,16 @@ namespace ChibiVerif.C01
 open ChibiVerif.X86 ChibiVerif.Asm ChibiVerif.Spec.IntSpec ChibiVerif.Gen.CommonType ChibiVerif.C01Codegen ChibiVerif.X86J
 
 section
-variable {off toff : Nat → Int} {K : Nat}
+variable {P : BitVec 64 → Prop} {off toff : Nat → Int} {K : Nat}
 
 /-- a binary node that is not a shift, right node `b` (evaluated first), left node `a`; operands may contain jumps -/
 theorem EvJ.bin_arith {op : BinOp} {ta tb : ITy} {va vb x : Int} (hx : binop op ta tb va vb = some x) (k : NK)
     (hop : specOp k = some op) (hns : op.isShift = false)
     {cr cl : List JI} {σ σr σl : Env} {Wr Wl : List Nat} {k0 k1 kr0 kr1 kl0 kl1 dr dl : Nat}
-    (Er : EvJ off toff K cr σ σr (fun r => Represents tb r vb) Wr kr0 kr1 dr)
-    (El : EvJ off toff K cl σr σl (fun r => Represents ta r va) Wl kl0 kl1 dl)
+    (Er : EvJ P off toff K cr σ σr (fun r => Represents tb r vb) Wr kr0 kr1 dr)
+    (El : EvJ P off toff K cl σr σl (fun r => Represents ta r va) Wl kl0 kl1 dl)
     (hk : k0 ≤ kr0 ∧ kr1 ≤ k1 ∧ k0 ≤ kl0 ∧ kl1 ≤ k1) (hK : k1 ≤ K) :
-    EvJ off toff K ((cr ++ J (castSeq tb (binopOperandType op ta tb))) ++ (JI.ins iPush ::
+    EvJ P off toff K ((cr ++ J (castSeq tb (binopOperandType op ta tb))) ++ (JI.ins iPush ::
       ((cl ++ J (castSeq ta (binopOperandType op ta tb))) ++ (JI.ins iPopRdi :: J (opSeq k (binopOperandType op ta tb))))))
       σ σl (fun r => Represents (binopType op ta tb) r x) (Wr ++ Wl) k0 k1 (max dr (dl + 1)) :=
   EvJ.bin
@@ -37,10 +37,10 @@ theorem EvJ.bin_arith {op : BinOp} {ta tb : ITy} {va vb x : Int} (hx : binop op 
 theorem EvJ.bin_shift {op : BinOp} {ta tb : ITy} {va vb x : Int} (hx : binop op ta tb va vb = some x) (k : NK)
     (hop : specOp k = some op) (hs : op.isShift = true)
     {cr cl : List JI} {σ σr σl : Env} {Wr Wl : List Nat} {k0 k1 kr0 kr1 kl0 kl1 dr dl : Nat}
-    (Er : EvJ off toff K cr σ σr (fun r => Represents tb r vb) Wr kr0 kr1 dr)
-    (El : EvJ off toff K cl σr σl (fun r => Represents ta r va) Wl kl0 kl1 dl)
+    (Er : EvJ P off toff K cr σ σr (fun r => Represents tb r vb) Wr kr0 kr1 dr)
+    (El : EvJ P off toff K cl σr σl (fun r => Represents ta r va) Wl kl0 kl1 dl)
     (hk : k0 ≤ kr0 ∧ kr1 ≤ k1 ∧ k0 ≤ kl0 ∧ kl1 ≤ k1) (hK : k1 ≤ K) :
-    EvJ off toff K (cr ++ (JI.ins iPush :: ((cl ++ J (castSeq ta (binopOperandType op ta tb))) ++
+    EvJ P off toff K (cr ++ (JI.ins iPush :: ((cl ++ J (castSeq ta (binopOperandType op ta tb))) ++
       (JI.ins iPopRdi :: J (opSeq k (binopOperandType op ta tb))))))
       σ σl (fun r => Represents (binopType op ta tb) r x) (Wr ++ Wl) k0 k1 (max dr (dl + 1)) :=
   EvJ.bin Er
@@ -58,10 +58,10 @@ theorem mem_append_skip {a b c : List Nat} : ∀ i, i ∈ a ++ c → i ∈ a ++ 
   intro i hi; simp only [List.mem_append] at hi ⊢; rcases hi with h | h <;> simp [h]
 
 /-- **the induction**: every expression of the full type `E` that `compileJ` assembles -/
-theorem value_j (off toff : Nat → Int) (K : Nat) (e : E) :
+theorem value_j (P : BitVec 64 → Prop) (off toff : Nat → Int) (K : Nat) (e : E) :
     ∀ (σ : Env) (t : ITy) (code : List JI) (v : Int) (σ' : Env) (k0 k1 c0 c1 : Nat),
       compileJ σ.tys off toff k0 c0 e = some (t, code, k1, c1) → evalE σ e = some (v, σ') → noConflict e = true → k1 ≤ K →
-      EvJ off toff K code σ σ' (fun r => Represents t r v) (wr e) k0 k1 (depthJ e) := by
+      EvJ P off toff K code σ σ' (fun r => Represents t r v) (wr e) k0 k1 (depthJ e) := by
   induction e with
   | lit t0 v0 =>
     intro σ t code v σ' k0 k1 c0 c1 hc hv hn hK
